@@ -539,7 +539,14 @@ class simplify_chained_calls(FuncADLNodeTransformer):
             bound = _bind_called_lambda(call_node.func, call_node)
             if bound is None:
                 # Not a call we can evaluate here (`*args`, a missing argument, ...): leave it.
-                return self.generic_visit(call_node)
+                # Its arguments may be matched to the parameters by name: they keep their names.
+                return ast.Call(
+                    func=self._visit_lambda_keeping_names(call_node.func),
+                    args=[self.visit(a) for a in call_node.args],
+                    keywords=[
+                        ast.keyword(arg=k.arg, value=self.visit(k.value)) for k in call_node.keywords
+                    ],
+                )
             arg_asts = [(name, self.visit(value)) for name, value in bound]
             # The parameters get fresh names first: a name that is free in an argument must not
             # be taken for a parameter of the same spelling when the result is visited again.
@@ -571,22 +578,27 @@ class simplify_chained_calls(FuncADLNodeTransformer):
         """
         a = node.args
         if a.vararg or a.kwarg or a.kwonlyargs or a.posonlyargs or a.defaults or a.kw_defaults:
-            # Its parameters keep their names (they can be passed by keyword); they still hide
-            # outer names, and the default values belong to the enclosing scope.
-            new_args = copy.copy(a)
-            new_args.defaults = [self.visit(d) for d in a.defaults]
-            new_args.kw_defaults = [self.visit(d) if d is not None else None for d in a.kw_defaults]
-            with stack_frame(self._arg_stack):
-                for p in _all_parameters(a):
-                    self._arg_stack.define_name(p.arg, ast.Name(p.arg, ast.Load()))
-                new_body = self.visit(node.body)
-            return ast.Lambda(args=new_args, body=new_body)
+            return self._visit_lambda_keeping_names(node)
 
         # Renamed before anything is substituted: afterwards no name on the stack is spelled like
         # a parameter, so a name that is free in a substituted argument is not taken for one when
         # a rewritten sub-expression is visited a second time.
         func = make_args_unique(node)
         return ast.Lambda(args=func.args, body=self.visit(func.body))
+
+    def _visit_lambda_keeping_names(self, node: ast.Lambda) -> ast.Lambda:
+        """Simplify the body of a lambda whose parameters keep their names (they can be passed
+        by keyword); they still hide outer names, and the default values belong to the
+        enclosing scope."""
+        a = node.args
+        new_args = copy.copy(a)
+        new_args.defaults = [self.visit(d) for d in a.defaults]
+        new_args.kw_defaults = [self.visit(d) if d is not None else None for d in a.kw_defaults]
+        with stack_frame(self._arg_stack):
+            for p in _all_parameters(a):
+                self._arg_stack.define_name(p.arg, ast.Name(p.arg, ast.Load()))
+            new_body = self.visit(node.body)
+        return ast.Lambda(args=new_args, body=new_body)
 
     def visit_Subscript_Tuple(self, v: ast.Tuple, s: ast.Constant):
         """
